@@ -207,9 +207,8 @@ def install(engine: Any) -> None:
         s = z3.Function("asttokens_range_start", z3.IntSort(), z3.IntSort(), z3.IntSort())(base.ident, nid)
         e = z3.Function("asttokens_range_end", z3.IntSort(), z3.IntSort(), z3.IntSort())(base.ident, nid)
         text = z3.Function("asttokens_text", z3.IntSort(), SEQ)(base.ident)
-        it.path.add_fact(z3.And(s >= 0, s < e, e <= z3.Length(text), text[s] != 10))
-        it.note_assumption("asttokens: get_text_range(node) = (s, e) with 0 <= s < e <= len(get_text(tree)) "
-                           "and the first character of a node is not a line break")
+        it.path.add_fact(z3.And(s >= 0, s < e, e <= z3.Length(text)))
+        it.note_assumption("asttokens: get_text_range(node) = (s, e) with 0 <= s < e <= len(get_text(tree))")
         it.register_index(s)
         return VTuple([VInt(s), VInt(e)])
 
